@@ -241,42 +241,84 @@ func c14DeliveryUnderLock(r *core.Run) {
 		}
 	})
 	r.Check(explicit == 0, "delivery-under-lock", fnPublish+" lock released at exit only", site(r, pub.SSA.Pos()), "RUnlock is deferred", "Publish releases the PubSub lock before it returns")
-	// (3) tree mutations under the write lock
-	for _, name := range []string{fnPSSubscribe, fnPSUnsub, fnBgrunner} {
-		fn := r.Need("delivery-under-lock", name)
-		if fn == nil {
+	// (3) tree mutations under the write lock: every Set/Delete on the subscription tree in
+	// the package, whichever function it lives in (a helper called with the lock held
+	// inherits the level of its call sites)
+	isMut := func(in ssa.Instruction) bool {
+		ci, ok := in.(ssa.CallInstruction)
+		if !ok {
+			return false
+		}
+		nm := methodName(ci)
+		if nm != "Set" && nm != "Delete" {
+			return false
+		}
+		return len(ci.Common().Args) > 0 && core.LastField(ci.Common().Args[0]) == "chans"
+	}
+	var entryLevel func(sf *ssa.Function, depth int) int
+	entryLevel = func(sf *ssa.Function, depth int) int {
+		if sf.Parent() != nil {
+			mc, mode := closureUse(sf)
+			if mode == "sync" && mc != nil {
+				return psLockLevelAt(sf.Parent(), entryLevel(sf.Parent(), depth))[mc]
+			}
+			return 0
+		}
+		obj, _ := sf.Object().(*types.Func)
+		if obj == nil || depth >= 2 || obj.Exported() {
+			return 0
+		}
+		// unexported helper: the minimum level over its static (non-defer, non-go) call sites
+		min, sites := 2, 0
+		for _, caller := range p.FuncList {
+			if caller.SSA == nil || caller.Pkg.PkgPath != sf.Pkg.Pkg.Path() {
+				continue
+			}
+			for _, cf := range core.AllSSA(caller.SSA) {
+				var lv map[ssa.Instruction]int
+				core.Instrs(cf, func(in ssa.Instruction) {
+					c, ok := in.(ssa.CallInstruction)
+					if !ok || core.CalleeObj(c) != obj {
+						return
+					}
+					sites++
+					if _, isCall := in.(*ssa.Call); !isCall {
+						min = 0
+						return
+					}
+					if lv == nil {
+						lv = psLockLevelAt(cf, entryLevel(cf, depth+1))
+					}
+					if lv[in] < min {
+						min = lv[in]
+					}
+				})
+			}
+		}
+		if sites == 0 {
+			return 0
+		}
+		return min
+	}
+	muts := 0
+	for _, fn := range p.FuncList {
+		if fn.SSA == nil || core.RelPkg(fn.Pkg.PkgPath) != "internal/pubsub" {
 			continue
 		}
-		m := 0
 		for _, sf := range core.AllSSA(fn.SSA) {
-			entry := 0
-			if sf.Parent() != nil {
-				mc, mode := closureUse(sf)
-				if mode == "sync" && mc != nil {
-					entry = psLockLevelAt(sf.Parent(), 0)[mc]
-				}
+			ms := findInstrs(sf, false, isMut)
+			if len(ms) == 0 {
+				continue
 			}
-			lv := psLockLevelAt(sf, entry)
-			for _, c := range findInstrs(sf, false, func(in ssa.Instruction) bool {
-				ci, ok := in.(ssa.CallInstruction)
-				if !ok {
-					return false
-				}
-				nm := methodName(ci)
-				if nm != "Set" && nm != "Delete" {
-					return false
-				}
-				return len(ci.Common().Args) > 0 && core.LastField(ci.Common().Args[0]) == "chans"
-			}) {
-				m++
+			lv := psLockLevelAt(sf, entryLevel(sf, 0))
+			for _, c := range ms {
+				muts++
 				r.Check(lv[c] == 2, "delivery-under-lock", n.next(fnName(p, sf)+" subscription tree mutation"), site(r, instrPos(c)),
 					"under the PubSub write lock", "the subscription tree is modified without the PubSub write lock: a concurrent Publish iterates a tree that is being changed")
 			}
 		}
-		if m == 0 {
-			r.Unknown("delivery-under-lock", name+" subscription tree mutation", site(r, fn.SSA.Pos()), "no Set/Delete on the subscription tree found")
-		}
 	}
+	r.Floor("delivery-under-lock(tree mutations)", muts, 2)
 }
 
 func c14EntryDiscriminator(r *core.Run) {
@@ -472,11 +514,7 @@ func c14Cleanup(r *core.Run) {
 	}
 	// a deferred closure deletes every entry of the connection from ps.chans and the conn from ps.conns
 	ok1, ok2 := false, false
-	for _, an := range fn.SSA.AnonFuncs {
-		_, mode := closureUse(an)
-		if mode != "defer" {
-			continue
-		}
+	for _, an := range deferredBodies(r.P, fn.SSA) {
 		core.Instrs(an, func(in ssa.Instruction) {
 			if c, ok := in.(ssa.CallInstruction); ok {
 				if methodName(c) == "Delete" && len(c.Common().Args) > 0 && core.LastField(c.Common().Args[0]) == "chans" {
